@@ -31,6 +31,7 @@ import sys
 
 sys.path.insert(0, os.path.dirname(os.path.abspath(__file__)))
 import kernels_C06 as KC  # noqa: E402
+import attrs_C06 as AT  # noqa: E402
 
 REPO = os.environ.get("VERIF_REPO", "/repo")
 SRC = os.path.join(REPO, "src", "pyunicorn")
@@ -470,17 +471,14 @@ def main():
                     continue
                 arg_edit.setdefault(fname, set()).add((params.index(r["name"]), r["name"]))
     # pass 2: call sites handing a shared value to a function that edits that parameter
-    records = []
-    for (mod, cname, fname), (f, is_method, recs) in per_func.items():
-        p = Pass(f, cached, is_method, False)
-        p.visit_block(f.body)       # rebuild taint (flow-insensitive approximation: final map)
-        extra = []
+    def edited_args_at_calls(f, fname, p):
+        """(call, callee, taint of the expression bound to a parameter the callee edits)"""
         for call in [n for n in ast.walk(f) if isinstance(n, ast.Call)]:
             callee = call.func.attr if isinstance(call.func, ast.Attribute) else (
                 call.func.id if isinstance(call.func, ast.Name) else None)
             if callee not in arg_edit or callee == fname:
                 continue
-            for pos, pname in arg_edit[callee]:
+            for pos, pname in sorted(arg_edit[callee]):
                 expr = None
                 if pos < len(call.args):
                     expr = call.args[pos]
@@ -494,11 +492,49 @@ def main():
                         expr = k.value
                 if expr is None:
                     continue
-                o = p.origin(expr)
-                if o is not None and o[0] in ("result", "field"):
-                    extra.append({"line": call.lineno, "kind": o[0], "name": o[1],
-                                  "how": "via-callee-" + callee, "var": ast.unparse(expr),
-                                  "index": "", "value": "", "verdict": "unrestored"})
+                yield call, callee, expr, p.origin(expr)
+
+    # round 4: transitive closure over pure-Python callees — a function that hands its own
+    # parameter on to a callee editing it edits that parameter itself (any depth)
+    passes = {}
+    for key, (f, is_method, recs) in per_func.items():
+        p = Pass(f, cached, is_method, False)
+        p.visit_block(f.body)       # rebuild taint (flow-insensitive approximation: final map)
+        passes[key] = p
+    via_callee = {}
+    grew = True
+    while grew:
+        grew = False
+        for (mod, cname, fname), (f, is_method, recs) in per_func.items():
+            params = [a.arg for a in f.args.args]
+            if is_method and params:
+                params = params[1:]
+            for call, callee, expr, o in edited_args_at_calls(f, fname, passes[(mod, cname, fname)]):
+                if o is None or o[0] != "arg" or o[1] not in params:
+                    continue
+                if o[1] in cfg["scalar_params"].get(f"{cname}.{fname}", []):
+                    continue
+                item = (params.index(o[1]), o[1])
+                if item not in arg_edit.setdefault(fname, set()):
+                    arg_edit[fname].add(item)
+                    via_callee[(mod, cname, fname, o[1])] = (call.lineno, callee, ast.unparse(expr))
+                    grew = True
+    records = []
+    for (mod, cname, fname), (f, is_method, recs) in per_func.items():
+        p = passes[(mod, cname, fname)]
+        extra = []
+        doc = (ast.get_docstring(f) or "").lower()
+        documented = "in place" in doc or "in-place" in doc or "inplace" in doc
+        for (m2, c2, f2, pname), (line, callee, var) in via_callee.items():
+            if (m2, c2, f2) == (mod, cname, fname):
+                extra.append({"line": line, "kind": "arg", "name": pname,
+                              "how": "via-callee-" + callee, "var": var, "index": "", "value": "",
+                              "verdict": "documented" if documented else "unrestored"})
+        for call, callee, expr, o in edited_args_at_calls(f, fname, p):
+            if o is not None and o[0] in ("result", "field"):
+                extra.append({"line": call.lineno, "kind": o[0], "name": o[1],
+                              "how": "via-callee-" + callee, "var": ast.unparse(expr),
+                              "index": "", "value": "", "verdict": "unrestored"})
         for r in recs + extra:
             r = dict(r)
             r.update(module=mod, cls=cname, func=fname, cached=fname in cached)
@@ -588,13 +624,18 @@ def main():
     lines.append("def ctorAliases : List CtorAlias := [\n" + ",\n".join(al) + "]\n")
     lines.append("def fieldEdits : List (String × String) := [\n" + ",\n".join(
         f'  ("{c}", "{f}")' for c, f in field_edits) + "]\n")
+    # ---- named link-attribute slots written / read inside value-returning methods (round 4) --
+    attr_tables, attr_gens, value_methods = AT.class_tables(mods, None)
+    lines.append(AT.lean_text(attr_tables))
     lines.append("end Pyunicorn.Generated.StructC06")
     txt = "\n".join(lines) + "\n"
     if not os.path.exists(out_path) or open(out_path).read() != txt:
         open(out_path, "w").write(txt)
     json.dump({"table": table, "all": records, "kernels": kernels, "c_functions": cfuncs,
                "kernel_calls": kcalls, "field_inits": finits, "ctor_aliases": ctor_alias,
-               "field_edits": field_edits, "to_cy_copies": TO_CY_FRESH[0]}, open(os.path.splitext(out_path)[0] + ".json", "w"),
+               "field_edits": field_edits, "to_cy_copies": TO_CY_FRESH[0],
+               "attr_tables": attr_tables, "attr_gens": attr_gens,
+               "value_methods": value_methods}, open(os.path.splitext(out_path)[0] + ".json", "w"),
               indent=1)
     return 0
 
